@@ -66,6 +66,10 @@ type c11AttScript struct {
 	AttemptOK bool
 	SignalErr bool
 	AllDoneOK bool
+	// LateWhere makes this iteration come back far too late (well past the
+	// announcement end of the next attempt): 1 in the attempt function, 2 in
+	// signalDone, 3 in waitUntilAllDone. Only scripted for iterations >= 2.
+	LateWhere int
 }
 
 // c11AttemptObs is what one member showed for one attempt number.
@@ -82,6 +86,12 @@ type c11AttemptObs struct {
 	ParamsStart    *uint64 `json:"params_start,omitempty"`
 	ParamsTimeout  *uint64 `json:"params_timeout,omitempty"`
 	LastReadBefore *uint64 `json:"current_block_read,omitempty"`
+	// height of the member's chain view when the loop asked to wait for the
+	// announcement start, i.e. at the loop's lateness decision point (the
+	// view only moves inside the monitor's stubs, so nothing can move it
+	// between the loop's own check and this call)
+	DecisionHeight *uint64 `json:"height_at_lateness_decision,omitempty"`
+	LateReturn     int     `json:"scripted_late_return,omitempty"`
 }
 
 type c11Read struct {
@@ -110,6 +120,9 @@ type c11Member struct {
 	mu         sync.Mutex
 	iter       uint // loop iterations seen (current-block reads for signing, direct waits for dkg)
 	lastDirect *uint64
+	lastDirectH *uint64
+	iterOpen   bool // the current iteration was already opened by a current-block read
+	lateReturns int
 	lastRead   *uint64
 	curAttempt uint
 	obs        map[uint]*c11AttemptObs
@@ -141,6 +154,18 @@ func (m *c11Member) script(i uint) c11AttScript {
 	s.AttemptOK = rng.Intn(6) == 0
 	s.SignalErr = rng.Intn(8) == 0
 	s.AllDoneOK = rng.Intn(3) != 0
+	if i >= 2 && rng.Intn(4) == 0 {
+		s.LateWhere = 1 + rng.Intn(3)
+		// give the late step a chance to be reached
+		s.CurErr = false
+		s.AnnMode = 0
+		if s.LateWhere >= 2 {
+			s.AttemptOK = true
+		}
+		if s.LateWhere == 3 {
+			s.SignalErr = false
+		}
+	}
 	return s
 }
 
@@ -180,11 +205,16 @@ func (m *c11Member) advanceTo(target uint64) {
 func (m *c11Member) waitForBlock(ctx context.Context, b uint64) error {
 	if c11Goid() == m.mainGoid {
 		m.mu.Lock()
-		if m.dkgLoop {
+		// one loop iteration = one current-block read (when the loop asks)
+		// followed by one direct wait; a loop that does not ask still
+		// opens an iteration here
+		if !m.iterOpen {
 			m.iter++
 		}
+		m.iterOpen = false
 		it := m.iter
 		m.lastDirect = c11U(b)
+		m.lastDirectH = c11U(m.clk.Height())
 		m.mu.Unlock()
 		if ctx.Err() != nil {
 			return nil
@@ -231,12 +261,14 @@ func (m *c11Member) awaitDone(ctx context.Context, what string) {
 func (m *c11Member) currentBlock() (uint64, error) {
 	m.mu.Lock()
 	m.iter++
+	m.iterOpen = true
 	it := m.iter
 	m.mu.Unlock()
 	if m.script(it).CurErr {
 		m.mu.Lock()
 		m.reads = append(m.reads, c11Read{Iter: it, Err: true})
 		m.lastRead = nil
+		m.iterOpen = false // the loop gives this iteration up
 		m.failed++
 		m.mu.Unlock()
 		return 0, fmt.Errorf("scripted current block error")
@@ -265,6 +297,8 @@ func (m *c11Member) Announce(ctx context.Context, memberIndex group.MemberIndex,
 	o.AnnCalled = true
 	o.AnnStart = m.lastDirect
 	m.lastDirect = nil
+	o.DecisionHeight = m.lastDirectH
+	m.lastDirectH = nil
 	o.AnnEnd = c11U(T)
 	o.HeightAtAnn = h
 	o.LastReadBefore = m.lastRead
@@ -354,12 +388,35 @@ func (m *c11Member) runAttempt(number uint, startBlock, timeoutBlock uint64) boo
 		span = timeoutBlock - startBlock
 	}
 	m.advanceTo(m.clk.Height() + span*uint64(sc.Frac)/2 + sc.Overrun)
+	if sc.LateWhere == 1 {
+		m.lateReturn(o, 1, span)
+	}
 	if !sc.AttemptOK {
 		m.mu.Lock()
 		m.failed++
 		m.mu.Unlock()
 	}
 	return sc.AttemptOK
+}
+
+// lateReturn lets the member's chain view run far past the next attempt's
+// announcement (more than two attempt spans) before the step returns.
+func (m *c11Member) lateReturn(o *c11AttemptObs, where int, span uint64) {
+	m.mu.Lock()
+	o.LateReturn = where
+	m.lateReturns++
+	m.mu.Unlock()
+	m.advanceTo(m.clk.Height() + 2*span + 25)
+}
+
+func (o *c11AttemptObs) span() uint64 {
+	if o.ParamsStart != nil && o.ParamsTimeout != nil && *o.ParamsTimeout > *o.ParamsStart {
+		return *o.ParamsTimeout - *o.ParamsStart
+	}
+	if o.AnnEnd != nil && o.TimeoutWait != nil && *o.TimeoutWait > *o.AnnEnd {
+		return *o.TimeoutWait - *o.AnnEnd
+	}
+	return 0
 }
 
 // --- signing done check stub
@@ -383,7 +440,16 @@ func (d *c11DoneCheck) signalDone(ctx context.Context, memberIndex group.MemberI
 	m := d.m
 	m.mu.Lock()
 	sc := m.script(m.iter)
+	o := m.ob(m.curAttempt)
+	sp := o.span()
 	m.mu.Unlock()
+	if sc.LateWhere == 2 {
+		m.lateReturn(o, 2, sp)
+		m.mu.Lock()
+		m.failed++
+		m.mu.Unlock()
+		return fmt.Errorf("scripted: done signal sent far too late")
+	}
 	if sc.SignalErr {
 		m.mu.Lock()
 		m.failed++
@@ -399,8 +465,26 @@ func (d *c11DoneCheck) waitUntilAllDone(ctx context.Context) (*signing.Result, u
 	sc := m.script(m.iter)
 	o := m.ob(m.curAttempt)
 	tw := o.TimeoutWait
+	sp := o.span()
 	m.mu.Unlock()
-	if sc.AllDoneOK && ctx.Err() == nil {
+	if sc.LateWhere == 3 {
+		if tw != nil && ctx.Err() == nil {
+			m.advanceTo(*tw)
+			m.awaitDone(ctx, fmt.Sprintf("done check context, wait target %d, height %d", *tw, m.clk.Height()))
+		}
+		m.lateReturn(o, 3, sp)
+		m.mu.Lock()
+		m.failed++
+		m.mu.Unlock()
+		return nil, 0, fmt.Errorf("scripted: done check comes back far too late")
+	}
+	// decided from the member's height, not from whether the cancellation has
+	// already been noticed, so that the run does not depend on scheduling
+	ended := m.stopped || (tw != nil && m.clk.Height() >= *tw)
+	if ended {
+		m.awaitDone(ctx, "done check context after its timeout block")
+	}
+	if sc.AllDoneOK && !ended && ctx.Err() == nil {
 		h := m.clk.Height()
 		return &signing.Result{Signature: &tecdsa.Signature{R: big.NewInt(1), S: big.NewInt(2)}}, h, nil
 	}
@@ -445,9 +529,9 @@ func c11One(mm map[uint64][]int) (uint64, bool) {
 func TestVerif_C11_Windows(t *testing.T) {
 	r := verifkit.Start(t, "C11", "windows")
 	defer r.Finish()
-	r.SetRule("real signingRetryLoop.start / dkgRetryLoop.start for all 3..7 members of a group, each on its own virtual chain view driven by a PRNG script per member and iteration (current-block error, late notice of a block, announce error early/late, minority, majority without self, attempt duration up to and beyond the timeout, attempt/done-check failure or success, late start by 0..1000 blocks, loop stop block); start blocks {0,1,899,1e6,2^40,random}. non-trivial = the run observed >= 1 failed/skipped attempt or a late start")
+	r.SetRule("real signingRetryLoop.start / dkgRetryLoop.start for all 3..7 members of a group, each on its own virtual chain view driven by a PRNG script per member and iteration (current-block error, late notice of a block, announce error early/late, minority, majority without self, attempt duration up to and beyond the timeout, attempt/done-check failure or success, late start by 0..1000 blocks, loop stop block, and for iterations >= 2 an attempt function / signalDone / waitUntilAllDone that comes back more than two attempt spans late); start blocks {0,1,899,1e6,2^40,random}. non-trivial = the run observed >= 1 failed/skipped attempt or a late start")
 	nCases := r.N(400, 20000)
-	var loops, attemptsSeen, skipsChecked, overlapsChecked, nonuniform, lateDkg int64
+	var loops, attemptsSeen, skipsChecked, overlapsChecked, nonuniform, lateDkg, decisions, lateReturns int64
 	var cmu sync.Mutex
 	verifkit.Parallel(nCases, 0, func(ci int) {
 		rng := r.SubRand("case", ci)
@@ -514,7 +598,7 @@ func TestVerif_C11_Windows(t *testing.T) {
 			if isDkg {
 				m.stopAt = S + 100 + uint64(rng.Intn(2500))
 			} else {
-				m.stopAt = S + 30 + uint64(rng.Intn(400))
+				m.stopAt = S + 30 + uint64(rng.Intn(700))
 			}
 			if m.stopAt <= S+m.late {
 				m.stopAt = S + m.late + 1
@@ -600,7 +684,7 @@ func TestVerif_C11_Windows(t *testing.T) {
 			hasAS, hasAE, hasPS, hasTO    bool
 		}
 		wins := map[uint]*win{}
-		var localAttempts, localSkips, localOverlaps, localNonuniform, localLateDkg int64
+		var localAttempts, localSkips, localOverlaps, localNonuniform, localLateDkg, localDecisions, localLateReturns int64
 		for a := uint(1); a <= maxAtt; a++ {
 			w := &win{}
 			wins[a] = w
@@ -644,6 +728,24 @@ func TestVerif_C11_Windows(t *testing.T) {
 		// not already passed
 		for _, m := range members {
 			if !isDkg {
+				// judged from the member's own chain height at the loop's
+				// lateness decision point, whether or not the loop asked for
+				// the current block
+				for a, o := range m.obs {
+					w := wins[a]
+					if w == nil || !w.hasAE || !o.AnnCalled || o.DecisionHeight == nil {
+						continue
+					}
+					localDecisions++
+					if *o.DecisionHeight >= w.annEnd {
+						fp, what := "sign:late-join:announced-after-window", "announced"
+						if o.Executed {
+							fp, what = "sign:late-join:executed-after-window", "announced and executed"
+						}
+						r.Violation(fp, fmt.Sprintf("member %d's chain was at block %d when its loop turned to attempt %d, whose announcement ends at block %d; the member %s that attempt", m.idx, *o.DecisionHeight, a, w.annEnd, what),
+							fmt.Sprintf("%s @attempt=%d member=%d", desc, a, m.idx), witness(a))
+					}
+				}
 				for _, rd := range m.reads {
 					if rd.Err {
 						continue
@@ -680,7 +782,12 @@ func TestVerif_C11_Windows(t *testing.T) {
 				r.Violation(loop+":attempt-order", fmt.Sprintf("member %d announced attempts out of order: %v", m.idx, m.announced), desc, nil)
 			}
 		}
+		for _, m := range members {
+			localLateReturns += int64(m.lateReturns)
+		}
 		cmu.Lock()
+		decisions += localDecisions
+		lateReturns += localLateReturns
 		loops += int64(n)
 		attemptsSeen += localAttempts
 		skipsChecked += localSkips
@@ -721,6 +828,8 @@ func TestVerif_C11_Windows(t *testing.T) {
 	r.Count("member_loops", loops)
 	r.Count("attempt_windows_compared", attemptsSeen)
 	r.Count("late_reads_checked_signing", skipsChecked)
+	r.Count("announce_decisions_checked_signing", decisions)
+	r.Count("scripted_late_returns", lateReturns)
 	r.Count("late_announcements_checked_dkg", lateDkg)
 	r.Count("successive_windows_checked", overlapsChecked)
 	r.Count("info_nonuniform_announcement_lengths", nonuniform)
